@@ -18,16 +18,20 @@ Section Sim.
     si_exec I1 a = si_exec I2 b /\ si_fail I1 a = si_fail I2 b /\ si_succ I1 a = si_succ I2 b.
   Hypothesis Hrec : forall t a b now v, R t a b -> t <= now -> R now (si_record I1 a now v) (si_record I2 b now v).
   Hypothesis Hweak : forall t t' a b, R t a b -> t <= t' -> R t' a b.
-  Hypothesis Hnewc : forall t, R t (si_new_closed I1 c) (si_new_closed I2 c).
-  Hypothesis Hnewh : forall t, R t (si_new_half I1 c) (si_new_half I2 c).
+  Hypothesis Hnewc : forall t, 0 <= t -> R t (si_new_closed I1 c) (si_new_closed I2 c).
+  Hypothesis Hnewh : forall t, 0 <= t -> R t (si_new_half I1 c) (si_new_half I2 c).
 
+  (* instants are non-negative (they are absolute Unix times; histories start at 0 or later) *)
   Inductive SR (t : Z) : bstate (S := S1) -> bstate (S := S2) -> Prop :=
-    | SR_closed a b : R t a b -> SR t (Closed a) (Closed b)
-    | SR_open a b st d : R t a b -> SR t (Open a st d) (Open b st d)
-    | SR_half a b p : R t a b -> SR t (HalfOpen a p) (HalfOpen b p).
+    | SR_closed a b : 0 <= t -> R t a b -> SR t (Closed a) (Closed b)
+    | SR_open a b st d : 0 <= t -> R t a b -> SR t (Open a st d) (Open b st d)
+    | SR_half a b p : 0 <= t -> R t a b -> SR t (HalfOpen a p) (HalfOpen b p).
+
+  Lemma SR_nonneg t s1 s2 : SR t s1 s2 -> 0 <= t.
+  Proof. intros H; destruct H; assumption. Qed.
 
   Lemma SR_weak t t' s1 s2 : SR t s1 s2 -> t <= t' -> SR t' s1 s2.
-  Proof. intros H Ht. destruct H; constructor; eapply Hweak; eauto. Qed.
+  Proof. intros H Ht. destruct H; constructor; try lia; eapply Hweak; eauto. Qed.
 
   Lemma SR_code t s1 s2 : SR t s1 s2 -> state_code s1 = state_code s2.
   Proof. intros H; destruct H; reflexivity. Qed.
@@ -54,20 +58,21 @@ Section Sim.
     intros H. unfold transition. rewrite <- (SR_code _ _ _ H).
     destruct (state_code s1 =? tgt); cbn [fst snd]; [auto|].
     rewrite (R_metrics _ _ _ (SR_stats _ _ _ H)). split; [reflexivity|].
-    destruct (tgt =? 0); [constructor; apply Hnewc|].
-    destruct (tgt =? 1); [constructor; apply (SR_stats _ _ _ H)|].
-    constructor; apply Hnewh.
+    pose proof (SR_nonneg _ _ _ H) as Hp.
+    destruct (tgt =? 0); [constructor; [exact Hp|apply Hnewc; exact Hp]|].
+    destruct (tgt =? 1); [constructor; [exact Hp|apply (SR_stats _ _ _ H)]|].
+    constructor; [exact Hp|apply Hnewh; exact Hp].
   Qed.
 
   Lemma try_acquire_sim t s1 s2 now : SR t s1 s2 ->
     let r1 := try_acquire I1 c s1 now in let r2 := try_acquire I2 c s2 now in
     fst (fst r1) = fst (fst r2) /\ snd r1 = snd r2 /\ SR t (snd (fst r1)) (snd (fst r2)).
   Proof.
-    intros H. destruct H as [a b H|a b st d H|a b p H]; cbn [try_acquire].
+    intros H. destruct H as [a b Hp H|a b st d Hp H|a b p Hp H]; cbn [try_acquire].
     - cbn. repeat split. constructor; assumption.
     - destruct (d <=? now - st); cbn [fst snd].
       + rewrite !transition_open_half. rewrite (R_metrics _ _ _ H).
-        destruct (0 <? halfopen_capacity c); cbn [fst snd]; repeat split; constructor; apply Hnewh.
+        destruct (0 <? halfopen_capacity c); cbn [fst snd]; repeat split; constructor; try exact Hp; apply Hnewh; exact Hp.
       + repeat split. constructor; assumption.
     - destruct (0 <? p); cbn [fst snd]; repeat split; constructor; assumption.
   Qed.
@@ -77,7 +82,7 @@ Section Sim.
     /\ SR t (fst (check_threshold I1 c s1 now er)) (fst (check_threshold I2 c s2 now er)).
   Proof.
     intros H. pose proof H as H0.
-    destruct H as [a b H|a b st d H|a b p H]; cbn [check_threshold];
+    destruct H as [a b Hp H|a b st d Hp H|a b p Hp H]; cbn [check_threshold];
       destruct (Hobs _ _ _ H) as (E1 & E2 & E3); destruct (R_rates _ _ _ H) as (E4 & E5).
     - rewrite E1, E2, E4. destruct (b_fexec c <=? si_exec I2 b); [|cbn; auto].
       destruct (_ || _); [apply transition_sim; assumption|cbn; auto].
@@ -94,7 +99,7 @@ Section Sim.
     /\ SR now (fst (record I1 c s1 now v er)) (fst (record I2 c s2 now v er)).
   Proof.
     intros H Ht. unfold record. apply check_threshold_sim.
-    destruct H as [a b H|a b st d H|a b p H]; cbn [state_stats with_stats]; constructor; eapply Hrec; eauto.
+    destruct H as [a b Hp H|a b st d Hp H|a b p Hp H]; cbn [state_stats with_stats]; constructor; try lia; eapply Hrec; eauto.
   Qed.
 
   Lemma bstep_core_sim t s1 s2 now op : SR t s1 s2 -> t <= now ->
@@ -332,10 +337,10 @@ Proof.
   unfold bcfg_ok in Hok. repeat (apply andb_true_iff in Hok; destruct Hok as [Hok ?]).
   apply (brun_sim conc_impl abs_impl Rc c Rc_obs Rc_rec) with (t := 0).
   - intros t t' a b HR _. exact HR.
-  - intros t. cbn [conc_impl abs_impl si_new_closed]. rewrite Hper. cbn [Z.eqb negb].
+  - intros t _. cbn [conc_impl abs_impl si_new_closed]. rewrite Hper. cbn [Z.eqb negb].
     unfold Rc. cbn [a_kind a_log]. apply Rcount_new. lia.
-  - intros t. cbn [conc_impl abs_impl si_new_half]. unfold Rc. cbn [a_kind a_log]. apply Rcount_new. lia.
-  - unfold cb_init, spec_init, new_closed. constructor.
+  - intros t _. cbn [conc_impl abs_impl si_new_half]. unfold Rc. cbn [a_kind a_log]. apply Rcount_new. lia.
+  - unfold cb_init, spec_init, new_closed. constructor; [lia|].
     cbn [conc_impl abs_impl si_new_closed]. rewrite Hper. cbn [Z.eqb negb].
     unfold Rc. cbn [a_kind a_log]. apply Rcount_new. lia.
   - exact Hh.
